@@ -231,9 +231,19 @@ class SimMachine:
         self.patcher.setUp()
         self.fs = self.patcher.fs
         self.fs.shuffle_listdir_results = False
+        # tempfile.gettempdir() probes candidate folders by creating a file with an OS-random name: pin the answer
+        # (pyfakefs creates this folder at set-up), so that the probe is neither a source of nondeterminism nor an FS event
+        import tempfile
+        self._old_tempdir = tempfile.tempdir
+        self.tempdir = "/tmp"
+        if not self.fs.exists(self.tempdir):
+            self.fs.create_dir(self.tempdir)
+        tempfile.tempdir = self.tempdir
 
     def close(self):
         CTL.active = False
+        import tempfile
+        tempfile.tempdir = self._old_tempdir
         self.patcher.tearDown()
 
     def __enter__(self):
